@@ -2,8 +2,8 @@
 (***************************************************************************)
 (* code -> spec for the legacy executor ReplicationSet.Do: every line of   *)
 (* trace.ndjson is one execution recorded by harness/c11 TestRecordDo      *)
-(* ({id, cfg, steps: [obs, env, obs, ...]}, env = finish / tick (the delay *)
-(* elapses) / cancel); accepted iff QuorumDo has a behaviour taking the    *)
+(* ({id, cfg, steps: [obs, env, obs, ...]}, env = finish / adv (half a delay  *)
+(* passes) / cancel); accepted iff QuorumDo has a behaviour taking the    *)
 (* env steps in order, running internal actions to quiescence in between   *)
 (* and agreeing with every observation.  Which delayed goroutine takes a   *)
 (* forceStart token is the specification's choice, bound by the observed   *)
@@ -37,7 +37,7 @@ TNext ==
            /\ l' = l + 1 /\ UNCHANGED vars
         \/ /\ e.a = "obs" /\ IntNext /\ l' = l
         \/ /\ e.a = "finish" /\ Finish(e.i, e.o) /\ l' = l + 1
-        \/ /\ e.a = "tick" /\ Timer /\ l' = l + 1
+        \/ /\ e.a = "adv" /\ Advance /\ l' = l + 1
         \/ /\ e.a = "cancel" /\ ParentCancel /\ l' = l + 1
 
 Accepted == l = Len(T.steps) + 1
